@@ -65,7 +65,9 @@ func TestTable(t *testing.T) {
 		{src: ".5", uns: UFloat},
 		{src: "a & b", uns: ULoneAmp},
 		{src: "a && b", want: []tk{{Identifier, "a", 1, 1}, {LogicalOperator, "&&", 1, 3}, {Identifier, "b", 1, 6}}},
-		{src: "a \xff", uns: UNonUTF8},
+		{src: "a \xff", err: "unknown-char"},
+		{src: "a\xe9", err: "unknown-char"},
+		{src: "`\xff`", uns: UNonUTF8},
 		{src: "é", uns: UUnicodeLetter},
 		{src: "\"a\nb\"", uns: UNewlineInIstr},
 		{src: `"\q"`, uns: UInvalidEscape},
